@@ -258,8 +258,13 @@ func (cr *cliReplayer) runConcrete(j *Job, m *ConcreteModel, aid string) *Native
 		return &NativeResult{Err: err.Error()}
 	}
 	scj, _ := json.Marshal(sc)
-	codeA, outA, errA := cr.exec(cr.bin, dA, doc, args...)
-	codeB, outB, errB := cr.exec(cr.ref, dB, doc, string(scj))
+	// when the document comes from --file, stdin carries a DIFFERENT document: reading the wrong source shows
+	stdinDoc := doc
+	if sc.File != "" && sc.File != "-" {
+		stdinDoc = "- from-stdin\n  - not-the-file\n"
+	}
+	codeA, outA, errA := cr.exec(cr.bin, dA, stdinDoc, args...)
+	codeB, outB, errB := cr.exec(cr.ref, dB, stdinDoc, string(scj))
 	res.Asserts["cli-vs-library"]++
 	res.Notes = append(res.Notes, fmt.Sprintf("gtree %s -> exit %d; library -> exit %d", strings.Join(args, " "), codeA, codeB))
 	if codeA < 0 || codeB < 0 || codeB >= 97 {
